@@ -182,6 +182,7 @@ TM_TYPES = [(r'^nano::rwlearner_t$|^' + UP + r'[^:]*>$', 'struct nv_rwl'),
             (r'^nano::(table_|affine_|single_feature_)?wlearner_t$|' + UP + r'.*>::pointer$', 'struct nv_wlobj'),
             (r'^nano::tensor4d_t$|tensor_t<nano::tensor_vector_storage_t, double, 4>', 'struct nv_t4m'),
             (r'^nano::tensor4d_dims_t$|^nano::tensor_dims_t<4>$|^std::array<long, 4', 'struct nv_dims4'),
+            (r'^nano::tensor1d_dims_t$|^nano::tensor_dims_t<1>$|^std::array<long, 1', 'int64_t'),      # dims of a rank-1 tensor: its size
             (r'^nano::hashes_t$|tensor_t<nano::tensor_vector_storage_t, unsigned long, 1>', 'struct nv_t1u'),
             (r'^nano::indices_t$|tensor_t<nano::tensor_vector_storage_t, long, 1>', 'struct nv_t1i'),
             (r'Eigen::Map<(const )?Eigen::Matrix<double, -1, 1', 'struct nv_vec')]
@@ -189,11 +190,16 @@ TM_CALLS = [(r'^dynamic_cast\|nano::table_wlearner_t \*\|nano::wlearner_t \*', '
             (r'^dynamic_cast\|nano::affine_wlearner_t \*\|nano::wlearner_t \*', 'nv_dyncast_affine({0})'),
             (r'^dynamic_cast\|nano::single_feature_wlearner_t \*\|nano::wlearner_t \*', 'nv_dyncast_sfw({0})'),
             (r'^operator==\|bool \(const tensor_dims_t<4UL> &, const tensor_dims_t<4UL> &\)', 'nv_dims4_eq'),
+            (r'^operator!=\|bool \(const tensor_dims_t<4UL> &, const tensor_dims_t<4UL> &\)', '(!nv_dims4_eq({&0}, {&1}))'),
+            # std::array<long, 1> ==: element-wise, i.e. the one dimension
+            (r'^operator==\|bool \(const tensor_dims_t<1UL> &, const tensor_dims_t<1UL> &\)', '(({0}) == ({1}))'),
+            (r'^operator!=\|bool \(const tensor_dims_t<1UL> &, const tensor_dims_t<1UL> &\)', '(({0}) != ({1}))'),
             (r'^operator==\|.*\|nano::tensor_t<nano::tensor_vector_storage_t, unsigned long, 1>', 'nv_t1u_eq'),
             (r'^operator==\|.*\|nano::tensor_t<nano::tensor_vector_storage_t, long, 1>', 'nv_t1i_eq'),
             (r'^operator\+=\|.*\|Eigen::MatrixBase<Eigen::Map<Eigen::Matrix<double, -1, 1, 0>, 0>\s*>', 'nv_vec_add({&0}, {1})')]
 TM_MEMBERS = [(r'^get\|' + UP, '{self}->ptr'), (r'^size\|nano::tensor_base_t<(unsigned )?long, 1', '{self}->n'),
               (r'^dims\|nano::tensor_base_t<double, 4', '{self}->dims'),
+              (r'^dims\|nano::tensor_base_t<(unsigned )?long, 1', '{self}->n'),
               (r'^vector\|nano::tensor_t<nano::tensor_vector_storage_t, double, 4>', 'nv_t4m_vector'),
               (r'^hashes\|nano::table_wlearner_t', '(*{self}).m_hashes'), (r'^hash2tables\|nano::table_wlearner_t', '(*{self}).m_hash2tables'),
               (r'^tables\|nano::single_feature_wlearner_t', '(*{self}).m_tables'),
@@ -321,6 +327,118 @@ def dtree_fit_fn():
               members=DF_MEMBERS, hooks=[nvhooks.param_hook(), size0_hook(DTREE_CPP)])
 
 
+FIT_PAIR = r'std::pair<double, long>'
+FIT_TYPES = [(r'^std::vector<\(anonymous namespace\)::cache_t>$|^std::vector<cache_t>$', 'struct nv_cvec'),
+             (r'^\(anonymous namespace\)::cache_t$|^cache_t$|cache_t>::value_type$', 'struct nv_fitcache'),
+             (r'^nano::tensor4d_t$|^nano::tensor_t<nano::tensor_vector_storage_t, double, 4>$', 'struct nv_t4'), (T1I, 'struct nv_t1i'),
+             (r'^nano::scalar_cmap_t$|^nano::tensor_t<nano::tensor_carray_storage_t, double, 1>$', 'struct nv_t1dv'),
+             (r'^nano::wlearner_criterion$', 'uint8_t'), (r'^nano::hinge_type$', 'uint8_t'),
+             (r'^' + FIT_PAIR + r'$|^std::vector<' + FIT_PAIR + r'.*>::value_type$|__alloc_traits<std::allocator<' + FIT_PAIR + r'.*>::value_type$', 'struct nv_ival'),
+             (r'^std::vector<' + FIT_PAIR + r'\s*>$|ivalues_t$', 'struct nv_ivec'),
+             (r'^nano::wlearner::accumulator_t$', 'struct nv_acc'), (r'^std::tuple<double, double>$|^tuple<typename __decay_and_strip<double &>::__type, typename __decay_and_strip<double &>::__type>$', 'struct nv_tuple2'),
+             (r'^Eigen::ArrayWrapper<Eigen::Map<|^Eigen::CwiseUnaryOp<Eigen::internal::scalar_square_op<double>, const Eigen::ArrayWrapper<|SquareReturnType$', 'struct nv_grow')]
+FIT_CALLS = [(r'^operator\[\]\|.*\|std::vector<(\(anonymous namespace\)::)?cache_t', '(*nv_cvec_at({&0}, {1}))'),
+             (r'^operator\[\]\|.*\|std::vector<' + FIT_PAIR, '(*nv_ivec_at({&0}, {1}))'),
+             (r'^operator<\|.*\|' + FIT_PAIR, 'nv_pair_lt'),            # std::pair relational operator: lexicographic
+             (r'^operator\(\)\|typename tbase::tconstref \(const nano::tensor_size_t\) const\|', '{0}.p[{1}]'),
+             (r'^operator=\|.*\|Eigen::ArrayWrapper<Eigen::Map<Eigen::Matrix<double', 'nv_row_store({0}, {1}, cache)'),
+             (r'^operator\*\|.*\|double\|#2$', 'nv_coef_scaled({0}, {1}, cache)'),      # scalar * tables.array(r)
+             (r'^sort\|', 'nv_sort({0}, {1}, &self->m_ivalues)'), (r'^make_tuple\|', '(struct nv_tuple2){ {0}, {1} }')]
+FIT_MEMBERS = [(r'^clear\|(\(anonymous namespace\)::)?cache_t', 'nv_cache_clear({self})'),
+               (r'^clear\|nano::wlearner::accumulator_t\|#0', 'nv_acc_clear'), (r'^clear\|std::vector<' + FIT_PAIR, 'nv_ivec_clear'),
+               (r'^reserve\|std::vector<' + FIT_PAIR, '@drop'),
+               (r'^size\|std::vector<' + FIT_PAIR, '{self}->n'), (r'^size\|nano::tensor_base_t<double, 1', '{self}->n'),
+               (r'^begin\|std::vector<' + FIT_PAIR, '((uint64_t)0)'), (r'^end\|std::vector<' + FIT_PAIR, '{self}->n'),
+               (r'^emplace_back\|std::vector<' + FIT_PAIR, 'nv_ivec_push({self}, {0}, {&1})'),
+               (r'^update\|nano::wlearner::accumulator_t\|#2', 'nv_acc_update({self}, {0})'),            # (vgrad, bin = 0)
+               (r'^update\|nano::wlearner::accumulator_t\|#3', 'nv_acc_update_x({self}, {0}, {1})'),      # (value, vgrad, bin = 0)
+               (r'^array\|nano::tensor_t<nano::tensor_vector_storage_t, double, 4>', 'nv_t4_array({self}, {&0}, {0})'),   # (where the row index is read from, its value)
+               (r'^square\|Eigen::ArrayBase<Eigen::ArrayWrapper<', 'nv_square({*self})'), (r'^sum\|Eigen::DenseBase<Eigen::CwiseUnaryOp<Eigen::internal::scalar_square_op', 'nv_sqsum({*self})'),
+               (r'^score\|(\(anonymous namespace\)::)?cache_t', 'nv_candidate({self}, NV_SIDE_NONE, 0.0, 0, {0}, {1}, {2})'),
+               (r'^score_neg\|(\(anonymous namespace\)::)?cache_t\|#4', 'nv_candidate({self}, NV_SIDE_NEG, {0}, 1, {1}, {2}, {3})'),
+               (r'^score_pos\|(\(anonymous namespace\)::)?cache_t\|#4', 'nv_candidate({self}, NV_SIDE_POS, {0}, 1, {1}, {2}, {3})'),
+               (r'^beta_neg\|', 'nv_coef_of_t({self}, NV_SIDE_NEG, {0})'), (r'^beta_pos\|', 'nv_coef_of_t({self}, NV_SIDE_POS, {0})'),
+               (r'^output_neg\|', 'nv_coef_of({self}, NV_SIDE_NEG)'), (r'^output_pos\|', 'nv_coef_of({self}, NV_SIDE_POS)')]
+
+
+def fit_fns(cls):
+    """stump / hinge: cache_t::clear and the per-feature callback of do_fit (the threshold sweep)"""
+    cpp = f'src/wlearner/{cls}.cpp'
+    k = dict(types=FIT_TYPES, calls=FIT_CALLS, members=FIT_MEMBERS)
+    clear = Fn(f'{cls}_cache_clear', cpp, 'clear', flt='cache_t::clear', self_struct='struct nv_fitcache',
+               select=lambda d: len(astload.param_types(d)) == 3, **k)
+    sweep = Fn(f'{cls}_fit_sweep', cpp, 'do_fit', flt=f'{cls}_wlearner_t::do_fit', lambda_index=0, captures=True, **k)
+    return dict(clear=clear, sweep=sweep)
+
+
+def file_constant(tu, name):
+    """value of a file-scope `static constexpr auto name = <integer literal>;` read from clang's AST (never typed by hand)"""
+    for d in astload.dump(tu, name):
+        for n in astload.walk(d):
+            if n.get('kind') == 'VarDecl' and n.get('name') == name:
+                lits = [x for x in astload.walk(n) if x.get('kind') == 'IntegerLiteral']
+                if len(lits) == 1:
+                    return int(lits[0]['value'])
+    raise astload.ExtractionError(f'{tu}: integer constant {name} not found')
+
+
+def affine_fit_fn():
+    CT = r'(\(anonymous namespace\)::)?cache_t'
+    types = [(r'^std::vector<' + CT + r'>$', 'struct nv_cvec'), (r'^' + CT + r'$|cache_t>::value_type$|^nano::wlearner::accumulator_t$', 'struct nv_fitcache'),
+             (r'^nano::tensor4d_t$|^nano::tensor_t<nano::tensor_vector_storage_t, double, 4>$', 'struct nv_t4'), (T1I, 'struct nv_t1i'),
+             (r'^nano::scalar_cmap_t$|^nano::tensor_t<nano::tensor_carray_storage_t, double, 1>$', 'struct nv_t1dv'), (r'^nano::wlearner_criterion$', 'uint8_t'),
+             (r'^Eigen::ArrayWrapper<Eigen::Map<', 'struct nv_grow')]
+    calls = [(r'^operator\[\]\|.*\|std::vector<' + CT, '(*nv_cvec_at({&0}, {1}))'),
+             (r'^operator\(\)\|typename tbase::t(const|mutable)ref \(const nano::tensor_size_t\)( const)?\|', '{0}.p[{1}]'),
+             (r'^operator=\|.*\|Eigen::ArrayWrapper<Eigen::Map<Eigen::Matrix<double', 'nv_row_store({0}, {1}, cache)')]
+    members = [(r'^clear\|nano::wlearner::accumulator_t\|#1', 'nv_aff_clear'), (r'^size\|nano::tensor_base_t<long, 1', '{self}->n'),
+               (r'^update\|nano::wlearner::accumulator_t\|#3', 'nv_aff_update({self}, 1, {0}, {1}, {2})'),      # (value, vgrad, bin)
+               (r'^update\|nano::wlearner::accumulator_t\|#2', 'nv_aff_update({self}, 0, 0.0, {0}, {1})'),     # (vgrad, bin)
+               (r'^array\|nano::tensor_t<nano::tensor_vector_storage_t, double, 4>', 'nv_t4_array({self}, {&0}, {0})'),
+               (r'^score\|' + CT, 'nv_aff_score'), (r'^w\|' + CT, 'nv_aff_coef({self}, NV_COEF_W)'), (r'^b\|' + CT, 'nv_aff_coef({self}, NV_COEF_B)')]
+    return Fn('affine_fit_feature', 'src/wlearner/affine.cpp', 'do_fit', flt='affine_wlearner_t::do_fit', lambda_index=0, captures=True, types=types, calls=calls, members=members)
+
+
+def fit_loop_hook():
+    """iterator.loop(samples, [&](feature, tnum, values) {..}) inside a do_fit: the callback is extracted separately; the stub
+    gets the samples and the captured caches (named literally: the capture list of the callback is checked to contain them)"""
+    from cxx2c import Unsupported
+
+    def h(P, n):
+        if n.get('kind') != 'CXXMemberCallExpr':
+            return None
+        me = n['inner'][0]
+        if me.get('kind') != 'MemberExpr' or me.get('name') != 'loop' or 'select_iterator_t' not in me['inner'][0]['type'].get('qualType', ''):
+            return None
+        args = n['inner'][1:]
+        lam = nvhooks.lambda_arg(args[-1]) if len(args) == 2 else None
+        if lam is None:
+            raise Unsupported('select_iterator_t::loop without a lambda callback')
+        caps = [c['name'] for c in astload.lambda_captures(lam)]
+        if 'caches' not in caps:
+            raise Unsupported(f'the fit callback does not capture caches (captures {caps})')
+        P.note('select_iterator_t::loop(samples, callback capturing caches) -> nv_fit_loop')
+        return f'nv_fit_loop({P.addr(me["inner"][0])}, {P.expr(args[0])}, &caches)'
+    return h
+
+
+FT_TYPES = [(r'^nano::dataset_t$', 'struct nv_dataset'), (T1I, 'struct nv_t1i'), (r'^nano::tensor4d_t$|tensor_t<nano::tensor_vector_storage_t, double, 4>', 'struct nv_t4'),
+            (r'^nano::select_iterator_t$', 'struct nv_iter'), (r'^nano::wlearner_criterion$', 'int32_t'), (r'^nano::hinge_type$', 'uint8_t'),
+            (r'^std::vector<(\(anonymous namespace\)::)?cache_t>$', 'struct nv_cvec'), (r'^(\(anonymous namespace\)::)?cache_t$', 'struct nv_fitcache'),
+            (r'^nano::tensor3d_dims_t$|^nano::tensor_dims_t<3>$|^std::array<long, 3', 'struct nv_t3dims')]
+FT_CALLS = [(r'^ctor\|nano::select_iterator_t\|', 'nv_iter_make({&0})'),
+            (r'^ctor\|nano::tensor_t<nano::tensor_carray_storage_t, long, 1>\|', '{0}'),      # indices_cmap_t(indices_t): same view
+            (r'^ctor\|std::vector<(\(anonymous namespace\)::)?cache_t>\|', 'nv_cvec_make({0})'),
+            (r'^min_reduce\|', '(*nv_min_reduce({&0}))'), (r'^operator\[\]\|.*\|std::vector<(\(anonymous namespace\)::)?cache_t', '(*nv_cvec_any({&0}, {1}))'), (r'^no_fit_score\|', '(NV_NO_FIT)')]
+FT_MEMBERS = [(r'^concurrency\|nano::(select|base_dataset)_iterator_t', '{self}->concurrency'), (r'^log_info\|', '@drop'),
+              (r'^set\|nano::single_feature_wlearner_t', 'nv_sfw_set({self}, {0}, {&1})')]
+
+
+def fit_top_fn(cls):
+    return Fn(f'{cls}_do_fit', f'src/wlearner/{cls}.cpp', 'do_fit', flt=f'{cls}_wlearner_t::do_fit', self_struct='struct nv_learner', types=FT_TYPES,
+              calls=FT_CALLS, members=FT_MEMBERS, hooks=[nvhooks.param_hook(), fit_loop_hook()])
+
+
 def iter_loop_hook(code, elem):
     """iterator.loop(samples, feature, callback): the lambda is not translated; the overload that was resolved (by the
     std::function parameter type of the callee) must be the one for the expected kind of feature values"""
@@ -358,6 +476,9 @@ def hinge_lemmas():
                about='left hinge = beta * (threshold - x)+ with beta = -tables[0] (reals)', source=src),
             VC('lemma/hinge right: (v >= t ? w*v + b : 0) == w * (v - t)+  given b == -t*w', hdr + f'(assert (not (= {right} (* w (pos (- v t))))))',
                about='right hinge = beta * (x - threshold)+ with beta = tables[0] (reals)', source=src),
+            VC('lemma/mid-point: v1 < v2  =>  v1 < (v1 + v2)/2 <= v2, so x <= v1 => x < mid and x >= v2 => x >= mid', '(declare-const v1 Real)(declare-const v2 Real)(declare-const x Real)\n'
+               '(define-fun mid () Real (* 0.5 (+ v1 v2)))\n(assert (< v1 v2))\n(assert (not (and (< v1 mid) (<= mid v2) (=> (<= x v1) (< x mid)) (=> (>= x v2) (>= x mid)))))',
+               about='the threshold stored by the sweeps separates exactly the left entries (values <= v1) from the right ones (values >= v2) under `value < threshold` (reals)', source=src),
             VC('lemma/canary: b == -t*w with a non-zero slope and an active sample is satisfiable', hdr + '(assert (not (= w 0.0)))(assert (< v t))',
                about='vacuity guard (must be sat)', source=src, expect='sat')]
 
@@ -422,6 +543,15 @@ def build(tier):
                calls=[(r'^max\|const double &\(const double &, const double &\)', 'nv_max_d({0}, {1})'), (r'^epsilon\|', '(NV_EPS)'),
                       (r'^AIC\|', 'nv_AIC'), (r'^AICc\|', 'nv_AICc'), (r'^BIC\|', 'nv_BIC')])
     targets.append(Target('make_score', [score], 'specs/C10/criterion.h'))
+    for cls in ('stump', 'hinge'):
+        f = fit_fns(cls)
+        targets.append(Target(f'{cls}_cache_clear', [f['clear']], 'specs/C10/fit.h', defines=['NV_FIT_CLEAR']))
+        targets.append(Target(f'{cls}_fit_sweep', [f['sweep']], 'specs/C10/fit.h'))
+    AFF = 'src/wlearner/affine.cpp'
+    targets.append(Target('affine_fit_feature', [affine_fit_fn()], 'specs/C10/fit_affine.h',
+                          defines=[f'bin_affine={file_constant(AFF, "bin_affine")}', f'bin_missed={file_constant(AFF, "bin_missed")}']))
+    for cls in ('stump', 'hinge', 'affine'):
+        targets.append(Target(f'{cls}_do_fit', [fit_top_fn(cls)], 'specs/C10/fit_top.h'))
     MH = 'specs/C10/trymerge.h'
     t = try_merge_fns()
     targets.append(Target('base_try_merge', [t['base']], MH))
@@ -444,13 +574,16 @@ def build(tier):
             'hinge: do_predict adds tables[0] * value + tables[1] to outputs row i iff the value is given and on the active side (left: value < threshold, right: value >= threshold), nothing otherwise and no other row is written; do_split assigns group 0 under the same condition (m_hinge one of the two enumerators); over the reals and with tables[1] == -threshold * tables[0] this is the MARS hinge on both sides (SMT lemmas)',
             'dtree do_split: the walk of any sample through the sibling pairs of m_nodes is a single path that starts at the root pair, follows at every visited pair the stump rule on the sample\'s own value of that pair\'s feature (value < threshold ? first : second child), ends at the first missing value without a group or at a leaf pair with group m_table + side, a row of m_tables; node / table indices in range; samples outside the argument are never assigned; depth 1 (root pair is a leaf pair): one visit, group m_table(root) + (value < threshold ? 0 : 1) = the stump rule',
             'dtree do_fit (structure only): nodes are stored in sibling pairs at even positions, both members of a pair carry the feature / threshold of the stump fitted for it and are both leaves or both inner nodes; a leaf pair gets the next two rows of m_tables, filled from rows 0 and 1 of that stump\'s tables in this order; an inner member\'s m_next is the later, in-range, even position of the pair fitted on its side (linked exactly when its queued cache is processed); members are replaced iff the returned score is not no_fit_score; depth 1: the stump\'s tables are rows 0 and 1 of m_tables -- this is the representation invariant dtree do_split / do_predict assume',
+            'threshold sweeps of the fits (stump, hinge; dtree nodes fit stumps): cache_t::clear turns every sample position with a given value into exactly one (value, sample) entry and one contribution to the total accumulator (hinge: with that value), a missing value into one contribution to the missing residual sum and nothing else, sorts the whole vector once and leaves the left accumulator empty; in the sweep a candidate is evaluated only between two DIFFERENT consecutive sorted values v1 < v2, the left accumulator then holds exactly the sorted entries before the cut (values <= v1) and total minus left exactly the others (values >= v2), once each; a stored candidate is one consistent candidate: the score of that evaluation, this feature, a threshold with v1 < threshold <= v2 for that cut (so that `value < threshold` reproduces the partition the score was computed for; REFUTED on the current library, see the finding) which is 0.5 * (v1 + v2) bit-identically whenever that mid-point separates, coefficients computed from the accumulators of that moment (stump: left -> row 0, right -> row 1; hinge: slope of the evaluated direction -> row 0, -threshold * row 0 -> row 1, m_hinge = that direction); over the reals that threshold separates the two sides under `value < threshold` (SMT lemma)',
+            'affine fit callback: every sample position is accumulated exactly once, a given value in the affine bin with its own value, a missing one in the missed bin (bin constants read from the source); the score is evaluated once, after all positions; a store is that candidate (score, feature, w() -> row 0, b() -> row 1)',
+            'do_fit of stump / hinge / affine around the callback: the callback (capturing the caches) is handed to select_iterator_t::loop with the given samples once; the learner takes every field of the cache min_reduce returns (feature, tables, threshold, hinge direction) exactly when its score is not no_fit_score, and returns that score',
             'wlearner::make_score (index discipline only): rss is clamped below by 1e3 * epsilon and passed with (k, n) unchanged and in order to exactly the formula the criterion names (AIC / AICc / BIC uninterpreted), the plain criterion returns the clamped rss',
             'dtree do_predict: through wlearner_t::split (compatibility check, then do_split) the row i of outputs receives exactly one update, the m_tables row of the group split() reports for samples(i), and none if there is no group; depth 1: the stump_do_predict contract',
         ],
         'not_decided': [
             'minimum RSS over the hypothesis class (all do_fit functions, accumulators, values of the criteria): optimisation over float moment sums; accumulator_t (moment sums, cluster()) is not under contract',
             'termination of the breadth-first walks of dtree do_split / do_fit; the scores, samples and stopping rule of dtree do_fit (stump fits are opaque)',
-            'hinge do_fit stores tables[1] = -threshold * tables[0] (hypothesis of the SMT lemmas)',
+            'the count in missing_cnt (a float sum of 1.0); the values of scores / coefficients (uninterpreted)',
             'numeric value of the scaled coefficients (Eigen *= is recorded, not computed); sums of merged / predicted coefficients are exact only as uninterpreted IEEE terms',
             'nano::find for multi-label values (detail::hash over the row) stays an assumed contract',
             'native replay only for the dtree groups() finding (replay/C10_replay.cpp); other counterexamples would be (value, threshold, index) tuples',
@@ -475,6 +608,7 @@ def build(tier):
             'stump_wlearner_t::split inside dtree by the contract proved in target stump_split (per position), lifted to samples: a sample gets group (value < threshold ? 0 : 1) iff it is among the samples and its value is given',
             'dtree do_predict: samples index valid dataset samples; groups of other samples are rows of m_tables (dtree_do_split.postcondition.3 at those samples); learner_t::critical_compatible throws or returns without other effects; indices_t(indices_cmap_t) copies',
             'm_tables.size() >= m_tables.size<0>() (non-empty target dims)',
+            'fit sweeps: the callback runs on the cache of its thread (caches[tnum], tnum < caches.size()); one feature value per sample of the subset (select_iterator_t::loop); samples index rows of gradients (wlearner_t::fit asserts it); a cache\'s tables have 2 rows (cache_t constructor); an entry is identified by the address its sample index is read from (row views carry it); accumulator_t::update adds one contribution, clear() empties; std::sort sorts and permutes (the sweep assumes sorted, finite entries -- proved for clear() -- at the positions it reads, relative to the followed position and the neighbour); std::pair relational operators are lexicographic; min_reduce returns one of the caches',
             'dtree do_fit: stump_wlearner_t::fit either fails or stores a feature, a threshold and a 2-row tables tensor; its split() has 2 groups; append(tables, t) adds t as the last row and keeps the others; std::vector / std::deque (FIFO, below max_size()) abstracted to the ghost pair and the caches that link its members (queue invariant by assume-guarantee: every pushed cache refers to the node appended just before, asserted); registered parameter domains (max_depth, min_split in [1, 10]); default member initialisers of cache_t (m_depth 0, m_parent 0) are the zero struct, those of dtree_node_t are pinned by a static_assert',
             'std::remove_if keeps exactly the elements for which the predicate is false, in order, at positions not after their old ones; vector::erase(first, end()) truncates at first',
             'single_feature_wlearner_t::vector(k) is m_tables.vector(k), tables() is m_tables (inline accessors in single.h); feature() is extracted',
@@ -495,14 +629,22 @@ def replay(rp):
     import replaylib
     out = {'reproduced': False, 'runs': []}
     ids = [fo['id'] for fo in rp['failed_obligations']]
-    if rp['target'] != 'dtree_do_split' or not any(i.endswith('dtree_do_split.postcondition.7') for i in ids):
+    scenarios = None
+    if rp['target'] == 'dtree_do_split' and any(i.endswith('dtree_do_split.postcondition.7') for i in ids):
+        scenarios = [[40, 3], [12, 2]]
+    elif rp['target'] in ('stump_fit_sweep', 'hinge_fit_sweep') and any('nv_candidate.assertion' in i or 'loop_invariant_step' in i or 'postcondition' in i for i in ids):
+        # a cut that is not between two different consecutive sorted values / an inconsistent stored candidate: replayed on a
+        # feature with tied values (real learner, RSS criterion; the clause is evaluated on its threshold and predictions)
+        # (the uninterpreted mid-point not separating v1 from v2 is real for IEEE doubles: consecutive doubles 1, 1 + ulp, 1 + 2 ulp)
+        scenarios = [['ties', rp['target'].split('_')[0]], ['ties', rp['target'].split('_')[0], 'adjacent']]
+    if scenarios is None:
         out['note'] = 'no native driver for this obligation: the replay file carries the verifier output only'
         return out
     if 'exe' not in _REPLAY:
         _REPLAY['exe'] = replaylib.build_with_library('replay/C10_replay.cpp', 'C10_replay')
-    for n, k in ((40, 3), (12, 2)):
-        rc, so, se = replaylib.run_driver(_REPLAY['exe'], [n, k])
-        out['runs'].append({'samples': n, 'classes': k, 'exit': rc, 'output': so.strip()[:2000]})
+    for args in scenarios:
+        rc, so, se = replaylib.run_driver(_REPLAY['exe'], args)
+        out['runs'].append({'args': args, 'exit': rc, 'output': so.strip()[:2000]})
         if rc == 1:
             out['reproduced'] = True
     return out
